@@ -390,27 +390,30 @@ def unloadedOffsets (instr : Nat) (unl : List ModRaw) : Outcome (List Nat) :=
   mapO (fun m => csub "frame.instruction - unloaded.base_of_image" instr m.base)
     (unl.filter fun m => decide (m.base ≤ instr ∧ instr ≤ m.base + m.size - 1))
 
+/-- what the printers see of a state: `mods`/`unl` = `modules.iter()` / `unloaded_modules.iter()`
+    (JSON), `modsText`/`unlText` = the `by_addr()` sequences (text), `frames` = all frames -/
 structure RenderIn where
   mods : List ModRaw
+  modsText : List ModRaw
   unl : List ModRaw
+  unlText : List ModRaw
   frames : List FrameIn
 
 structure RenderOut where
-  modEnds : List (Nat × Nat)   -- (json end_addr, text end)
-  unlEnds : List (Nat × Nat)
+  modEnds : List Nat        -- JSON `end_addr`
+  modTextEnds : List Nat    -- text `base + size - 1`
+  unlEnds : List Nat
+  unlTextEnds : List Nat
   frames : List (Option Nat × Option Nat × Option Nat)
-
-def modEnds (m : ModRaw) : Outcome (Nat × Nat) := do
-  let j ← jsonEnd m
-  let t ← textEnd m
-  pure (j, t)
 
 /-- everything the text, brief-text and JSON printers compute with `+`/`-` -/
 def render (r : RenderIn) : Outcome RenderOut := do
-  let a ← mapO modEnds r.mods
-  let b ← mapO modEnds r.unl
+  let a ← mapO jsonEnd r.mods
+  let a' ← mapO textEnd r.modsText
+  let b ← mapO jsonEnd r.unl
+  let b' ← mapO textEnd r.unlText
   let c ← mapO frameOffsets r.frames
-  pure { modEnds := a, unlEnds := b, frames := c }
+  pure { modEnds := a, modTextEnds := a', unlEnds := b, unlTextEnds := b', frames := c }
 
 /-! ## small sites -/
 
@@ -538,18 +541,19 @@ def kernel (args : List String) : String :=
         | none => "none"
         | some o => s!"some eip={o.eip} esp={o.esp} ebp={o.ebp} ebx={optStr o.ebx}") (fpo i x)
     | _, _, _, _, _, _, _, _, _, _, _ => "bad-op"
-  | ["printer", mods, unl, frames] =>
-    match (kvField "mods" mods).bind (parseList parseMod), (kvField "unl" unl).bind (parseList parseMod),
+  | ["printer", mods, tmods, unl, tunl, frames] =>
+    match (kvField "mods" mods).bind (parseList parseMod), (kvField "tmods" tmods).bind (parseList parseMod),
+          (kvField "unl" unl).bind (parseList parseMod), (kvField "tunl" tunl).bind (parseList parseMod),
           (kvField "frames" frames).bind (parseList parseFrame) with
-    | some ms, some us, some fs =>
+    | some ms, some tms, some us, some tus, some fs =>
       -- the request carries what the readers kept; anything else is not a state the printers can see
-      if !(ms.all readerKeeps && us.all readerKeeps) then "bad-op" else
+      if !(ms.all readerKeeps && tms.all readerKeeps && us.all readerKeeps && tus.all readerKeeps) then "bad-op" else
       showOutcome (fun (o : RenderOut) =>
-        let ends (l : List (Nat × Nat)) := joinWith "," (l.map fun e => s!"{e.1}/{e.2}")
-        s!"mods:{ends o.modEnds} unl:{ends o.unlEnds} frames:" ++
+        let ends (l : List Nat) := joinWith "," (l.map toString)
+        s!"mods:{ends o.modEnds} tmods:{ends o.modTextEnds} unl:{ends o.unlEnds} tunl:{ends o.unlTextEnds} frames:" ++
           joinWith "," (o.frames.map fun f => s!"{optStr f.1}:{optStr f.2.1}:{optStr f.2.2}"))
-        (render { mods := ms, unl := us, frames := fs })
-    | _, _, _ => "bad-op"
+        (render { mods := ms, modsText := tms, unl := us, unlText := tus, frames := fs })
+    | _, _, _, _, _ => "bad-op"
   | ["bound", l] =>
     match parseList (fun s => match s.splitOn ":" with
         | [a, b] => do let a ← optNat a; let b ← optNat b; pure (a, b)
